@@ -14,7 +14,7 @@ HARNESS = ["harness/db/c07_seqalloc_test.go"]
 MAX_FINDINGS = 12         # failing behaviours confirmed and reported per replay family
 
 
-def run(ctx):
+def _run_core(ctx):
     if getattr(ctx, "replay", None):
         rp = json.load(open(ctx.replay))["replay"]
         if rp.get("family") == "doc":
@@ -253,3 +253,12 @@ def doc_level(ctx, scns):
             break
     rows2, tr2 = pass_p(ctx, fam, scns, rows, tr, "scn")
     pass_c(ctx, fam, rows2, tr2, "scn", len(split_behaviours(rows2, fam)))
+
+
+def run(ctx):
+    """the property's own check, then (thorough tier) the end-to-end Pipeline stage (specs/Pipeline): the composed
+    write -> allocator -> feed -> change cache -> changes model, whose predicates owned by this property are reported here."""
+    _run_core(ctx)
+    if not ctx.quick():
+        import checks.Pipeline as pipeline
+        pipeline.run_stage(ctx, owners=["C07"], model=True, free=True)
